@@ -40,8 +40,8 @@ ASSUMPTIONS = [
     "an empty chunk result may be '' or b'' (codecs.iterencode/iterdecode skip falsy chunks)",
 ]
 MIN_EVENTS = {
-    'quick': {'oracle.detect.final': 25000, 'oracle.detect.monotone': 25000, 'oracle.roundtrip': 500, 'oracle.chunking': 20000, 'partitions.exhaustive-inputs': 30},
-    'thorough': {'oracle.detect.final': 25000, 'oracle.detect.monotone': 25000, 'oracle.roundtrip': 500, 'oracle.chunking': 400000, 'partitions.exhaustive-inputs': 100},
+    'quick': {'oracle.fallback': 40, 'oracle.detect.final': 25000, 'oracle.detect.monotone': 25000, 'oracle.roundtrip': 500, 'oracle.chunking': 20000, 'partitions.exhaustive-inputs': 30},
+    'thorough': {'oracle.fallback': 40, 'oracle.detect.final': 25000, 'oracle.detect.monotone': 25000, 'oracle.roundtrip': 500, 'oracle.chunking': 400000, 'partitions.exhaustive-inputs': 100},
 }
 
 CLASSES = [0x00, 0x40, 0x63, 0x68, 0x61, 0xEF, 0xBB, 0xBF, 0xFE, 0xFF, 0x41, 0x22, 0x80]
@@ -449,10 +449,65 @@ def run_chunking(ctx, t, enc, rng, apis):
 APIS = ('incdec', 'iterdecode', 'reader', 'incenc', 'iterencode', 'writer')
 
 
+FALLBACK_DOCS = [b'a{content:"\xe4\xf6"}', b'@charset "koi8-r";a{content:"\xe4"}', b'\xef\xbb\xbfa{content:"\xc3\xa4"}', b'a{}', b'', b'@charset "iso-8859-5"; \xe4', b'/* \xb5 */a{x:y}',
+                 b'\xff\xfea\x00{\x00}\x00', b'@char', b'@charset "', b'@charset  "x";\xe4']  # fmt: skip
+
+
+def fallback_stream(ctx):
+    """force=False: the given encoding is only a fallback for documents without BOM/@charset; one-shot decoder, incremental decoder
+    (all 2-partitions) and stream reader must agree with the model: explicit declaration, else the fallback"""
+    import io
+
+    for i, (b, given) in ctx.share([(b, g) for b in FALLBACK_DOCS for g in ('iso-8859-1', 'koi8-r', 'cp437', 'utf-8', 'iso-8859-7')]):
+        name, explicit = M.detect_final(b)
+        enc = name if explicit else given
+        case = {'kind': 'fallback', 'bytes': b, 'given': given}
+        ctx.count('evaluations')
+        ctx.count('oracle.fallback')
+        try:
+            import codecs as _c
+
+            lead = 0
+            for bom, bname in ((_c.BOM_UTF8, 'utf-8-sig'),):
+                if b.startswith(bom) and explicit:
+                    lead = 0
+            want = b.decode(enc)
+            if want.startswith('\ufeff'):
+                want = want[1:]
+            want = M.fix(want, enc) if explicit or True else want
+        except (UnicodeDecodeError, LookupError):
+            continue
+        results = {}
+        try:
+            results['oneshot'] = codecs.getdecoder('css')(b, encoding=given, force=False)[0]
+            for cut in range(len(b) + 1):
+                d = codecs.getincrementaldecoder('css')(encoding=given, force=False)
+                results['incremental@%d' % cut] = join_any([d.decode(b[:cut], False), d.decode(b[cut:], True)], '')
+            rd = codecs.getreader('css')(io.BytesIO(b), encoding=given, force=False)
+            results['reader'] = rd.read() + rd.read()
+        except Exception as e:
+            feats = ['stream.undecided-at-eof'] if undecided_text(b.decode('latin-1')) or len(answers(b)) > 1 else []
+            ctx.violation('fallback.exception', case, {'tb': core.short_tb(e)}, features=feats, site=core.raise_site(e))
+            continue
+        ref = results['oneshot']
+        for k, v in results.items():
+            if v != ref:
+                feats = ['stream.undecided-at-eof'] if k == 'reader' and (undecided_text(b.decode('latin-1')) or len(answers(b)) > 1) else []
+                ctx.violation('fallback.apis-disagree', case, {'api': k, 'got': v, 'oneshot': ref}, features=feats)
+                break
+        else:
+            # the characters (not the rewritten @charset name) are those of the model's encoding
+            body_model = b.decode(enc).lstrip('\ufeff')
+            strip = lambda t: t.split(';', 1)[1] if t.startswith('@charset "') and ';' in t else t  # noqa: E731
+            if strip(ref) != strip(body_model):
+                ctx.violation('fallback.encoding', case, {'got': ref, 'model_encoding': enc, 'expected_text': body_model})
+
+
 def run_worker(ctx):
     cssutils, _ = core.import_repo()
     c = codec(cssutils)
     quick = ctx.tier == 'quick'
+    fallback_stream(ctx)
     # detector prefix table
     idx = 0
     for n in range(0, 5):
